@@ -73,6 +73,7 @@ struct Opts {
 	deny: bool,
 	profile: String,
 	no_evidence: bool,
+	quarter: bool,
 }
 
 fn parse_args() -> Opts {
@@ -91,6 +92,7 @@ fn parse_args() -> Opts {
 		deny: false,
 		profile: option_env!("IREFSIM_PROFILE").unwrap_or("checked").to_string(),
 		no_evidence: false,
+		quarter: false,
 	};
 	while let Some(x) = a.next() {
 		match x.as_str() {
@@ -103,6 +105,7 @@ fn parse_args() -> Opts {
 			"--verif" => o.verif = PathBuf::from(a.next().unwrap_or_default()),
 			"--deny" => o.deny = true,
 			"--no-evidence" => o.no_evidence = true,
+			"--quarter" => o.quarter = true,
 			"--profile-name" => o.profile = a.next().unwrap_or_default(),
 			s if !s.starts_with("--") && o.file.is_none() => o.file = Some(s.to_string()),
 			s => die(&format!("unknown argument {}", s)),
@@ -296,7 +299,25 @@ fn hang_report(o_verif: &Path, engine: &str, property: &str, seed: u64, tier: &s
 }
 
 fn tier_runs(o: &Opts, quick: u64, thorough: u64) -> u64 {
-	o.runs.unwrap_or(if o.tier == "thorough" { thorough } else { quick })
+	let n = o.runs.unwrap_or(if o.tier == "thorough" { thorough } else { quick });
+	if o.quarter {
+		(n / 4).max(1)
+	} else {
+		n
+	}
+}
+
+/// The unchecked-profile pass uses run indices disjoint from the checked pass.
+fn first_run(o: &Opts, total_checked: u64) -> u64 {
+	if o.quarter {
+		o.from + total_checked * 4
+	} else {
+		o.from
+	}
+}
+
+fn unchecked_runs() -> u64 {
+	std::env::var("IREFSIM_UNCHECKED_RUNS").ok().and_then(|s| s.parse().ok()).unwrap_or(0)
 }
 
 #[derive(Default)]
@@ -407,7 +428,7 @@ fn check_bufsim(o: &Opts, prop: Prop) {
 	let pid = prop.id();
 	let keep_digests = o.cmd == "digest";
 	let (workers, fail) = run_batch::<BufWorker, (Trace, Violation)>(
-		o.from,
+		first_run(o, total),
 		total,
 		o.jobs,
 		|run| hang_report(&verif, "bufsim", pid, seed, &tier, run),
@@ -446,7 +467,14 @@ fn check_bufsim(o: &Opts, prop: Prop) {
 		println!("run {} (seed {}) violates {}; minimising ...", run, seed, prop.id());
 		let orig_steps = trace.steps.len();
 		let known2 = &known;
-		let m = minimise::minimise(prop, &trace, &v, &|c| is_known(known2, c).is_none());
+		// a bug in the minimiser must never hide the violation: fall back to the full trace
+		let m = match std::panic::catch_unwind(std::panic::AssertUnwindSafe(|| minimise::minimise(prop, &trace, &v, &|c| is_known(known2, c).is_none()))) {
+			Ok(m) => m,
+			Err(_) => {
+				println!("note: minimiser failed, reporting the unminimised trace");
+				minimise::Minimised { trace: trace.clone(), violation: v.clone(), attempts: 0 }
+			}
+		};
 		let r = Replay {
 			engine: "bufsim".into(),
 			property: prop.id().into(),
@@ -461,10 +489,14 @@ fn check_bufsim(o: &Opts, prop: Prop) {
 			minimise_attempts: m.attempts,
 		};
 		// the minimised file must reproduce in a fresh execution
-		match exec_replay(&r) {
-			Ok(Some(v2)) if v2.oracle == r.violation.oracle => {}
-			_ => die("minimised trace does not reproduce the violation"),
-		}
+		let r = match exec_replay(&r) {
+			Ok(Some(v2)) if v2.oracle == r.violation.oracle => r,
+			_ => {
+				// never lose a violation to the minimiser: report the original trace instead
+				println!("note: minimised trace did not reproduce, reporting the unminimised trace");
+				Replay { trace: Some(trace.clone()), violation: v.clone(), minimise_attempts: 0, ..r }
+			}
+		};
 		report_violation(o, &r);
 	}
 	// merge
@@ -548,6 +580,7 @@ fn check_bufsim(o: &Opts, prop: Prop) {
 				"counters": other,
 				"regression_corpus_replayed": corpus_n,
 				"known_findings_hit": known_hits,
+				"unchecked_profile_runs_before_this_pass": unchecked_runs(),
 				"batch_digest": format!("{:016x}", digest),
 				"components_real": ["iref-core (all of crates/core/src, built from /repo's working tree)"],
 				"components_stubbed": [],
@@ -585,7 +618,7 @@ fn check_itersim(o: &Opts) {
 	let tier = o.tier.clone();
 	let keep_digests = o.cmd == "digest";
 	let (workers, fail) = run_batch::<IterWorker, (IterCase, Violation)>(
-		o.from,
+		first_run(o, total),
 		total,
 		o.jobs,
 		|run| hang_report(&verif, "itersim", "C12", seed, &tier, run),
@@ -695,6 +728,7 @@ fn check_itersim(o: &Opts) {
 				"interleavings_reached_per_segment_count": sched,
 				"counters": stats.c,
 				"regression_corpus_replayed": corpus_n,
+				"unchecked_profile_runs_before_this_pass": unchecked_runs(),
 				"batch_digest": format!("{:016x}", digest),
 				"components_real": ["iref-core Path::segments / normalized_segments / derived queries, both families"],
 				"components_stubbed": [],
@@ -731,7 +765,7 @@ fn check_allocsim(o: &Opts) {
 	let tier = o.tier.clone();
 	let keep_digests = o.cmd == "digest";
 	let (workers, fail) = run_batch::<AllocWorker, (AllocCase, Violation)>(
-		o.from,
+		first_run(o, total),
 		total,
 		o.jobs,
 		|run| hang_report(&verif, "allocsim", "C20", seed, &tier, run),
@@ -868,6 +902,7 @@ fn check_allocsim(o: &Opts) {
 				"cases_per_type": stats.per_type,
 				"counters": stats.c,
 				"regression_corpus_replayed": corpus_n,
+				"unchecked_profile_runs_before_this_pass": unchecked_runs(),
 				"batch_digest": format!("{:016x}", digest),
 				"components_real": ["iref-core borrowed constructors and read accessors", "std System allocator behind the counting wrapper"],
 				"components_stubbed": [],
